@@ -12,7 +12,7 @@ from ..worlds import store
 ID = "C12"
 LEVEL = "exploration"
 CHUNK = 40
-BUDGET = {"quick": {"runs": 3000, "wall": 150}, "thorough": {"runs": 150000, "wall": 3000}}
+BUDGET = {"quick": {"runs": 3000, "wall": 150}, "thorough": {"runs": 150000, "wall": 1200}}
 RULE = ("stores with n-1, n, n+1 and 3n events matching a filter of limit n in {0,1,2,max_limit-1,"
         "max_limit,max_limit+1,10^9,absent}, max_limit in {3,5,8,10,6000} per chunk, ties at the cut, "
         "single- and multi-value filters of every shape, 1-5 filters per REQ, both back ends; "
